@@ -67,6 +67,16 @@ class Model:
 def step(qs, M, name, t, p):
     """apply one op to both queues and the model; returns clause or None"""
     if name in ('add_new', 'readd'):
+        if name == 'readd':
+            # first a re-add with a priority the priority key rejects: it raises and must leave the queue exactly as it was
+            for q in qs:
+                try:
+                    q.add(t, 'not a number')
+                    return 'add_bad_priority_accepted'
+                except (TypeError, ValueError):
+                    pass
+                if len(q) != len(M.live):
+                    return 'failed_add_changed_the_queue'
         for q in qs:
             q.add(t, p)
         M.add(t, p)
